@@ -1,4 +1,5 @@
 import Pyunicorn.Lemmas.Repr
+import Pyunicorn.Lemmas.ReprHist
 import Pyunicorn.Generated.ArithC05
 import Mathlib.Tactic.FieldSimp
 import Mathlib.Tactic.Ring
@@ -131,15 +132,17 @@ embedded graph and `g`'s edge attribute. -/
 theorem igraph_path (g : IGraph) (hN : 2 ≤ g.n) (hs : SimpleEdges g.directed g.edges)
     (hr : ∀ p ∈ g.edges, p.1 < g.n ∧ p.2 < g.n) (hw : ∀ w, g.vw = some w → w.length = g.n) :
     fromIGraph g = .ok { ofGraph g.directed g.n (rel g.directed g.edges) (weightsOf g.n g.vw) none
-      with graph := g.edges, eattr := g.ea } :=
+      with graph := g.edges, eattr := g.ea, gvw := g.vw } :=
   fromIGraph_simple g hN hs hr hw
 
-/-- **save → Load** through a file format that returns what was written -/
+/-- **save → Load** through a file format that returns what was written: the
+loaded network is the saved one (its embedded graph object now carries the node
+weights as vertex attribute, as the saved object's does after `save`) -/
 theorem saveLoad_ofGraph (store : IGraph → IGraph) (d : Bool) (N : Nat) (hN : 2 ≤ N)
     (a : Nat → Nat → Bool) (hs : Simple d N a) (w : List Rat) (hw : w.length = N)
     (ea : Option (List Rat))
     (hstore : store (toIGraph (ofGraph d N a w ea)) = toIGraph (ofGraph d N a w ea)) :
-    saveLoad store (ofGraph d N a w ea) = .ok (ofGraph d N a w ea) := by
+    saveLoad store (ofGraph d N a w ea) = .ok { ofGraph d N a w ea with gvw := some w } := by
   unfold saveLoad
   rw [hstore]
   have hg : toIGraph (ofGraph d N a w ea)
@@ -159,7 +162,7 @@ theorem saveLoad_ofGraph (store : IGraph → IGraph) (d : Bool) (N : Nat) (hN : 
 theorem fromIGraph_toIGraph (d : Bool) (N : Nat) (hN : 2 ≤ N)
     (a : Nat → Nat → Bool) (hs : Simple d N a) (w : List Rat) (hw : w.length = N)
     (ea : Option (List Rat)) :
-    fromIGraph (toIGraph (ofGraph d N a w ea)) = .ok (ofGraph d N a w ea) :=
+    fromIGraph (toIGraph (ofGraph d N a w ea)) = .ok { ofGraph d N a w ea with gvw := some w } :=
   saveLoad_ofGraph id d N hN a hs w hw ea rfl
 
 
@@ -214,7 +217,7 @@ theorem fromIGraph_fresh (g : IGraph) (net : Net) (h : fromIGraph g = .ok net) :
   obtain ⟨n1, h1, h2⟩ := bind_ok h
   simp only [pure, Except.pure, Except.ok.injEq] at h2
   subst h2
-  exact fresh_update _ _ _ (init_fresh _ _ _ _ h1)
+  exact fresh_update _ _ _ _ (init_fresh _ _ _ _ h1)
 
 theorem saveLoad_fresh (store : IGraph → IGraph) (net net' : Net)
     (h : saveLoad store net = .ok net') : Fresh net' :=
@@ -385,7 +388,8 @@ identity on the canonical network, whatever weights the constructor put first -/
 theorem load_via_adjacency (d : Bool) (N : Nat) (hN : 2 ≤ N) (a : Nat → Nat → Bool)
     (hs : Simple d N a) (w : List Rat) (hw : w.length = N) (ea : Option (List Rat))
     (gw : Option (Option (List Rat))) (hgw : ∀ x, gw = some (some x) → x.length = N) :
-    loadViaAdjacency (toIGraph (ofGraph d N a w ea)) gw = .ok (ofGraph d N a w ea) := by
+    loadViaAdjacency (toIGraph (ofGraph d N a w ea)) gw
+      = .ok { ofGraph d N a w ea with gvw := some w } := by
   have hg : toIGraph (ofGraph d N a w ea)
       = ⟨N, d, graphEdges d N (cells N a), some w, ea⟩ := rfl
   rw [hg]
@@ -480,6 +484,183 @@ theorem copy_link_attribute (d : Bool) (N : Nat) (hN : 2 ≤ N) (a : Nat → Nat
         exact this
       exact (linkAttr_zero _ f hf i j hr').symm
 
+/-! ## any sparse storage; edge list without `n_nodes` -/
+
+/-- **sparse path, any storage**: a square sparse matrix that stores each cell at
+most once with value 0 or 1 — in any order (csc / csr / coo / lil / dok), with or
+without explicitly stored zeros — builds the canonical network of the relation
+"the entry is non-zero". -/
+theorem sparse_path (d : Bool) (N : Nat) (hN : 2 ≤ N) (s : Sparse) (hs : SimpleSparse N s)
+    (w : List Rat) (hw : w.length = N) :
+    init d (.sparse s) (some w) = .ok (ofGraph d N (relOf s) w none) :=
+  init_simpleSparse d N hN s hs w hw
+
+/-- the matrix `csc_matrix(np.array(dense))` of a dense 0/1 matrix and the COO matrix
+of a duplicate-free edge list are such matrices (so `dense_path` and the matrix
+`FromIGraph` builds are instances of `sparse_path`), and the relation read off the
+former is the dense matrix's -/
+theorem sparse_path_instances (N : Nat) (a : Nat → Nat → Bool) (E : List (Nat × Nat))
+    (hnd : E.Nodup) (hr : ∀ p ∈ E, p.1 < N ∧ p.2 < N) :
+    SimpleSparse N (ofDenseMat N N (ind a)) ∧ SimpleSparse N (cooOnes N E)
+    ∧ ∀ i j, i < N → j < N → relOf (ofDenseMat N N (ind a)) i j = a i j :=
+  ⟨simpleSparse_dense N a, simpleSparse_cooOnes N E hnd hr, relOf_dense N a⟩
+
+/-- two sparse matrices with the same non-zero cells (whatever their storage order
+and explicit zeros) build the same network -/
+theorem sparse_storage_irrelevant (d : Bool) (N : Nat) (hN : 2 ≤ N) (s s' : Sparse)
+    (hs : SimpleSparse N s) (hs' : SimpleSparse N s')
+    (h : ∀ i j, i < N → j < N → relOf s i j = relOf s' i j) (w : List Rat) (hw : w.length = N) :
+    init d (.sparse s) (some w) = init d (.sparse s') (some w) := by
+  rw [sparse_path d N hN s hs w hw, sparse_path d N hN s' hs' w hw, ofGraph_congr w none h]
+
+/-- **edge list without `n_nodes`**: `N = edges.max() + 1` (the expression found in
+the source, `ArithC05.edge_list_N`), every entry is then in range, and the
+network is the one built with `n_nodes = N` -/
+theorem edge_list_path_inferred (d : Bool) (E : List (Nat × Nat)) (hE : E ≠ [])
+    (hN : 2 ≤ maxNode E + 1) (w : List Rat) (hw : w.length = maxNode E + 1) :
+    ((maxNode E + 1 : Nat) : Int) = ArithC05.edge_list_N (maxNode E)
+    ∧ init d (.edges E none) (some w) = .ok (ofGraph d (maxNode E + 1) (rel d E) w none) := by
+  refine ⟨by simp [ArithC05.edge_list_N], ?_⟩
+  have h := edge_list_path d (maxNode E + 1) hN E (lt_maxNode E) w hw
+  unfold init construct at h ⊢
+  simp only at h ⊢
+  rw [setEdgeList_inferred _ E hE]
+  exact h
+
+/-! ## live objects: the invariant, and histories of statements
+
+`Coherent net` (Lemmas/ReprHist.lean): at least two nodes, the embedded graph
+object is a simple graph on the network's nodes, one weight per node, one
+attribute value per edge, and `n_links`, `link_density`, `sp_A`, total and mean
+node weight are those of the canonical network of the relation the embedded graph
+describes.  `Reprs net σ`: `net` is coherent and shows the relation, weights,
+link-attribute matrix and stored vertex weights of the abstract state `σ`. -/
+
+/-- every constructor path (they all return `ofGraph`, see above) starts a history:
+the canonical network of a simple graph is a coherent live object representing
+that graph, its weights, no attribute, nothing stored on the graph object -/
+theorem constructed_reprs (d : Bool) (N : Nat) (hN : 2 ≤ N) (a : Nat → Nat → Bool)
+    (hs : Simple d N a) (w : List Rat) (hw : w.length = N) :
+    Reprs (ofGraph d N a w none) ⟨a, w, none, none⟩ := by
+  rw [ofGraph_eq_form d N a hs w none]
+  exact ⟨coherent_form (good_graphEdges d N hN a w hw none (fun _ h => by cases h)),
+    fun i j hi hj => rel_graphEdges d N a hs i j hi hj, rfl, rfl, rfl⟩
+
+/-- … and so does `FromIGraph` / `Load` of any simple igraph object (edges in the
+object's own order, its edge attribute, its stored vertex weights) -/
+theorem fromIGraph_coherent (g : IGraph) (hN : 2 ≤ g.n) (hs : SimpleEdges g.directed g.edges)
+    (hl : NoLoops g.edges) (hr : ∀ p ∈ g.edges, p.1 < g.n ∧ p.2 < g.n)
+    (hw : ∀ w, g.vw = some w → w.length = g.n)
+    (ha : ∀ vs, g.ea = some vs → vs.length = g.edges.length) :
+    ∃ net, fromIGraph g = .ok net ∧ Coherent net ∧ net.graph = g.edges ∧ net.eattr = g.ea
+      ∧ net.w = weightsOf g.n g.vw ∧ net.N = g.n ∧ net.directed = g.directed := by
+  refine ⟨_, fromIGraph_simple g hN hs hr hw, ?_, rfl, rfl, rfl, rfl, rfl⟩
+  have hwl : (weightsOf g.n g.vw).length = g.n := by
+    cases hv : g.vw with
+    | none => simp [weightsOf]
+    | some x => exact hw x hv
+  exact coherent_form (d := g.directed) (N := g.n) (g := g.edges) (ea := g.ea) (vw := g.vw)
+    ⟨hN, hs, hl, hr, hwl, ha, hw⟩
+
+/-- every coherent object represents an abstract state (its own) -/
+theorem coherent_reprs (net : Net) (h : Coherent net) : ∃ σ : Abs, Reprs net σ ∧
+    σ.a = rel net.directed net.graph ∧ σ.w = net.w ∧ σ.gvw = net.gvw :=
+  h.reprs
+
+/-- **what a represented state determines**: every derived observable of the
+object is the one of the canonical network of `σ` -/
+theorem reprs_observables (net : Net) (σ : Abs) (h : Reprs net σ) :
+    net = { ofGraph net.directed net.N σ.a σ.w none with
+            graph := net.graph, eattr := net.eattr, gvw := σ.gvw }
+    ∧ SimpleEdges net.directed net.graph ∧ NoLoops net.graph
+    ∧ (∀ i j, i < net.N → j < net.N → rel net.directed net.graph i j = σ.a i j)
+    ∧ AttrIs net σ.V :=
+  ⟨h.eq_ofGraph, h.coh.good.simple, h.coh.good.noloop, h.adj, h.attr⟩
+
+/-- **one statement** on a live object — `node_weights = w`, `set_link_attribute`,
+`del_link_attribute`, `adjacency = A`, `save`, `save` + `Load`, `copy()`,
+`FromIGraph(net.graph)` — succeeds and leaves an object representing the
+specified state `specStep` -/
+theorem statement_spec (store : IGraph → IGraph) (hstore : ∀ g, store g = g) (net : Net) (σ : Abs)
+    (h : Reprs net σ) (op : Op) (hv : ValidOp net.directed net.N op) :
+    ∃ net', step store net op = .ok net' ∧ Reprs net' (specStep net.N σ op)
+      ∧ net'.N = net.N ∧ net'.directed = net.directed :=
+  step_reprs store hstore net σ h op hv
+
+/-- **every history** of such statements, of any length and in any order, on one
+object (continuing with the loaded / copied object after `reload` / `copy` /
+`regraph`) succeeds and ends in an object representing the specified state: in
+particular the current weights, total, mean, adjacency, link count, density and
+link attribute survive any number of saves, loads, copies and reassignments. -/
+theorem history_spec (store : IGraph → IGraph) (hstore : ∀ g, store g = g) (net : Net) (σ : Abs)
+    (h : Reprs net σ) (ops : List Op) (hv : ∀ op ∈ ops, ValidOp net.directed net.N op) :
+    ∃ net', run store net ops = .ok net' ∧ Reprs net' (spec net.N σ ops)
+      ∧ net'.N = net.N ∧ net'.directed = net.directed :=
+  run_reprs store hstore ops net σ h hv
+
+/-- **save → Load of any coherent object** (whatever path and history produced it):
+the loaded object *is* the saved object as `save` left it -/
+theorem saveLoad_coherent (store : IGraph → IGraph) (hstore : ∀ g, store g = g) (net : Net)
+    (h : Coherent net) :
+    fromIGraph (store (save net).2) = .ok (save net).1
+    ∧ (save net).1 = { net with gvw := some net.w }
+    ∧ saveLoad store net = fromIGraph (store (save net).2) := by
+  obtain ⟨d, N, g, ea, vw, w, rfl, hg⟩ := h.exists_form
+  refine ⟨?_, rfl, rfl⟩
+  rw [hstore, save_form]
+  exact fromIGraph_form hg (some w)
+    (fun v hv => by simp only [Option.some.injEq] at hv; subst hv; exact hg.wlen)
+
+/-- **`SpatialNetwork.Load` / `GeoNetwork.Load` of any coherent object** (rebuilt from
+the dense adjacency matrix of the stored graph, then the stored weights and the
+stored graph are attached): the loaded object is the saved one, whatever weights
+the constructor assigned first -/
+theorem loadViaAdjacency_coherent (net : Net) (h : Coherent net)
+    (gw : Option (Option (List Rat))) (hgw : ∀ x, gw = some (some x) → x.length = net.N) :
+    loadViaAdjacency (save net).2 gw = .ok (save net).1 := by
+  obtain ⟨d, N, g, ea, vw, w, rfl, hg⟩ := h.exists_form
+  have hgw' : ∀ x, gw = some (some x) → x.length = N := hgw
+  rw [save_form]
+  unfold loadViaAdjacency
+  simp only
+  have hadj : ofDenseMat N N (igAdj ⟨N, d, g, some w, ea⟩) = ofDenseMat N N (ind (rel d g)) := by
+    apply ofDenseMat_congr
+    intro i j _ _
+    exact igAdj_simple ⟨N, d, g, some w, ea⟩ hg.simple i j
+  rw [hadj, init_dense_none d N hg.size (rel d g)]
+  simp only [bind, Except.bind]
+  have h1 : ∃ w1, assignWeights (ofGraph d N (rel d g) (List.replicate N 1) none) gw
+      = .ok (ofGraph d N (rel d g) w1 none) := by
+    cases gw with
+    | none => exact ⟨_, rfl⟩
+    | some x =>
+      refine ⟨weightsOf N x, ?_⟩
+      show setWeights _ x = _
+      apply setWeights_ofGraph
+      intro y hy; subst hy; exact hgw' y rfl
+  obtain ⟨w1, h1⟩ := h1
+  rw [h1]
+  simp only [Option.map_some]
+  unfold assignWeights
+  simp only
+  rw [setWeights_ofGraph d N (rel d g) w1 none (some w) (fun x hx => by
+    simp only [Option.some.injEq] at hx; subst hx; exact hg.wlen)]
+  rfl
+
+/-- what is written always holds the *current* weights, whatever the graph object
+carried before (a file written earlier, the object the network was loaded from) -/
+theorem save_writes_current_weights (net : Net) :
+    (save net).2.vw = some net.w ∧ (save net).2.ea = net.eattr
+    ∧ (save net).2.edges = net.graph ∧ (save net).2 = toIGraph net :=
+  ⟨rfl, rfl, rfl, rfl⟩
+
+/-- **copy of any coherent object**: same relation, weights, total, mean, `sp_A`,
+link count, density and link-attribute matrix; a fresh graph object -/
+theorem copy_coherent (net : Net) (σ : Abs) (h : Reprs net σ) :
+    ∃ c, copy net = .ok c ∧ Reprs c { σ with gvw := none } ∧ c.N = net.N
+      ∧ c.directed = net.directed :=
+  step_reprs id (fun _ => rfl) net σ h .copy trivial
+
 /-! ## non-vacuity: the hypotheses are satisfiable by non-trivial states -/
 
 /-- the path 0 - 1 - 2 plus the isolated node 3 -/
@@ -516,5 +697,32 @@ example : Simple false 3 (fun _ _ => false) ∧ Simple false 2 (fun i j => i != 
 /-- the error branches are reachable -/
 example : setAdjacency (Net.blank false 0) (ofDenseMat 1 1 fun _ _ => 0) = .error .zeroDivision :=
   setAdjacency_small _ _ rfl (by decide)
+
+/-- a sparse matrix in arbitrary order with an explicitly stored zero (hypotheses of `sparse_path`) -/
+example : SimpleSparse 3 ⟨3, 3, [(2, 1, 1), (0, 1, 1), (0, 2, 0), (1, 0, 1), (1, 2, 1)]⟩ :=
+  ⟨rfl, rfl, by decide, by decide, by decide⟩
+/-- an edge list whose node count is inferred -/
+example : exE ≠ [] ∧ 2 ≤ maxNode exE + 1 := by decide
+/-- a history on the path-plus-isolated-node network: reassign weights, set an
+attribute, save, load, reassign again, copy, save, load — the hypotheses of
+`history_spec` hold, and the specified final state carries the last weights -/
+def exOps : List Op :=
+  [.setW (some [2, 2, 1, 1]), .setAttr (fun i j => (i + j : Nat)), .save, .reload,
+   .setW (some [0, 1 / 2, 1, 4]), .copy, .reload, .regraph]
+example : ∀ op ∈ exOps, ValidOp false 4 op := by
+  intro op hop
+  simp only [exOps, List.mem_cons, List.not_mem_nil, or_false] at hop
+  rcases hop with rfl | rfl | rfl | rfl | rfl | rfl | rfl | rfl <;>
+    first
+    | trivial
+    | rfl
+    | (intro _ i j; simp [Nat.add_comm])
+/-- assigning a new adjacency matrix (sparse, unordered, with a stored zero) is a valid statement -/
+example : ValidOp false 4 (.setAdj ⟨4, 4, [(2, 3, 1), (3, 2, 1), (0, 1, 0)]⟩) :=
+  ⟨⟨rfl, rfl, by decide, by decide, by decide⟩, ⟨by decide, fun _ => forall_lt_lt (by decide)⟩⟩
+example : (spec 4 ⟨exA, exW, none, none⟩ exOps).w = [0, 1 / 2, 1, 4]
+    ∧ (spec 4 ⟨exA, exW, none, none⟩ exOps).gvw = some [0, 1 / 2, 1, 4] := ⟨rfl, rfl⟩
+example : Reprs (ofGraph false 4 exA exW none) ⟨exA, exW, none, none⟩ :=
+  constructed_reprs false 4 (by decide) exA ⟨by decide, fun _ => forall_lt_lt (by decide)⟩ exW rfl
 
 end Pyunicorn.Repr
